@@ -13,3 +13,6 @@ func VerifReset() {
 func VerifSeed(capacity int) {
 	builtinPool.pool.Put(ring.New(capacity))
 }
+
+// VerifIndex exposes the calibration bucket function.
+func VerifIndex(n int) int { return index(n) }
